@@ -14,6 +14,7 @@ every run; nothing is imported or executed.  What is extracted:
       (with the guard of the `if` the append sits in),
     - the whole-EOM-config comparison of the parametrized branch (`new_eom_config != old_eom_config`,
       both built with `dataclasses.asdict(<x>.eom_config)`) and the keys popped from it;
+* presence tests `if new_ch_obj.eom_config is None: return <error>` (parameter `eom_config`);
 * the body of `check_retarget` (normalised source text of the returned expression);
 * the post-replay sample comparison of `build_sequence_from_matching` (`np.isclose(current_samples.X,
   new_samples.X)` under `if strict: for eom_channel in active_eom_channels`);
@@ -211,8 +212,20 @@ class _Matcher(ast.NodeVisitor):
                 out.append(cp[0])
         return out
 
+    def _presence(self, test: ast.expr) -> str | None:
+        """`new_ch_obj.X is None` -> 'X' (the new channel must have X)."""
+        if (isinstance(test, ast.Compare) and len(test.ops) == 1 and isinstance(test.ops[0], ast.Is)
+                and isinstance(test.comparators[0], ast.Constant) and test.comparators[0].value is None):
+            sd = _side(test.left, self.loopvars)
+            if sd is not None and sd[0] == "new" and sd[1]:
+                return sd[1]
+        return None
+
     def visit_If(self, node: ast.If):
         paths = self._test_paths(node.test)
+        pres = self._presence(node.test)
+        if pres is not None and _returns_error(node.body):
+            paths = paths + [pres]
         if paths and _returns_error(node.body):
             for p in paths:
                 self.compared.append((p, tuple(self.guards)))
